@@ -131,6 +131,10 @@ func checkC19(c *C19Case) Result {
 			res.Discard = "NOT NULL is not a type error"
 			return res
 		}
+		if ms[c.Plant].Expr == "TRUE" {
+			res.Discard = "NOT <boolean> is not a type error"
+			return res
+		}
 		probeSQL := "SELECT (NOT 5) AS z FROM t / SELECT (NOT 'a') AS z FROM t"
 		for _, q := range strings.Split(probeSQL, " / ") {
 			probe := Run(map[string]any{"t": []any{map[string]any{"a": 1.0}}}, q, Opts{})
